@@ -1,11 +1,13 @@
 import Driver.Common
 import Driver.FeeMarket
 import Driver.StateDB
+import Driver.Block
 
 def main (args : List String) : IO UInt32 := do
   let stdin ← IO.getStdin
   let stdout ← IO.getStdout
   match args with
   | ["feemarket"] => Driver.loop stdin stdout Driver.FeeMarket.step (); return 0
+  | ["block"] => Driver.loop stdin stdout Driver.Block.step Driver.Block.emptyState; return 0
   | ["statedb"] => Driver.loop stdin stdout Driver.StateDB.step Driver.StateDB.init; return 0
   | _ => IO.eprintln "usage: driver <engine>"; return 2
